@@ -4,7 +4,8 @@ Decided: the nodes and edges of a subgrid are the values of the selected faces' 
 subgrid_<kind>_indices are stored on every path from the very arrays used to index that kind; every grid variable whose VALUES index a grid dimension is remapped (node-valued, with the fill value mapped to itself) or dropped, decided per schema name;
 re-indexed arrays do not inherit index-dependent attribute side tables; node/edge selections go through node_face/edge_face with the fill value filtered; data are sliced with the subgrid indices of their own kind and attached to the sliced grid;
 element-kind tables of the subset accessors agree; the constant-latitude scan is a strict opposite-sign test (truth table over the sign abstraction) and race free under prange.
-the image of the fill value under the node renumbering (dict entry, np.where, or a lookup array with an extra slot); Grid.isel(n_face=...) is handed indices, not the mask they were computed from (decided from the slicer's cast); the faces of a cross-section come from Grid.get_faces_at_constant_latitude on every path."""
+the image of the fill value under the node renumbering (dict entry, np.where, or a lookup array with an extra slot); Grid.isel(n_face=...) is handed indices, not the mask they were computed from (decided from the slicer's cast); the faces of a cross-section come from Grid.get_faces_at_constant_latitude on every path.
+The sliced data array is given the coordinates that were sliced with it."""
 
 import ast
 import itertools
